@@ -668,6 +668,7 @@ func (w *world) nodeOp(r *xp.Req, resp *xp.Resp) {
 		if ci := n.ClusterInfo(); ci != nil {
 			st.Leader = ci.LeaderId
 		}
+		st.Mutates = int(atomic.LoadInt32(&h.fs.mutates))
 		resp.State = st
 		resp.Emitted = int(atomic.LoadInt64(&h.emitted))
 	case "node-dump":
